@@ -337,6 +337,15 @@ func (fs *filesystem) Mount(ctx context.Context, mountpoint string, labels map[s
 	fs.layer[mountpoint] = l
 	fs.layerMu.Unlock()
 	fs.metricsController.Add(mountpoint, l)
+	defer func() {
+		if retErr != nil {
+			// The mount failed and the layer is released. Don't leave it registered.
+			fs.layerMu.Lock()
+			delete(fs.layer, mountpoint)
+			fs.layerMu.Unlock()
+			fs.metricsController.Remove(mountpoint)
+		}
+	}()
 
 	// mount the node to the specified mountpoint
 	// TODO: bind mount the state directory as a read-only fs on snapshotter's side
